@@ -24,6 +24,16 @@ Proof. exact limit_never_exceeded_holds. Qed.
 Theorem C14_counting_wrapper_counts_every_transfer : counting_wrapper_counts_every_transfer.
 Proof. exact counting_wrapper_counts_every_transfer_holds. Qed.
 
+(** [as_slice] shows exactly the bytes of [parts] (plain and limited buffers, every limit). *)
+Theorem C14_as_slice_shows_parts : as_slice_shows_parts.
+Proof. exact as_slice_shows_parts_holds. Qed.
+
+(** Slicing the inner slice by the limit instead (seeded change C14-k) panics. *)
+Theorem C14_as_slice_by_limit_refuted :
+  exists b l, wf b /\ lim_buf_as_slice_k {| inner := b; limit := l |} = None
+              /\ lim_buf_len {| inner := b; limit := l |} = len b.
+Proof. exact lim_buf_as_slice_k_refuted. Qed.
+
 (** What was wrong before the repair of H6 ([self.limit as u32]). *)
 Theorem C14_h6_truncating_cast_refuted :
   exists b l, wf b /\ snd (lim_buf_parts_h6 {| inner := b; limit := l |})
@@ -35,9 +45,12 @@ Check C14_reported_lengths_agree : reported_lengths_agree.
 Check C14_set_init_appends_in_order : set_init_appends_in_order.
 Check C14_limit_never_exceeded : limit_never_exceeded.
 Check C14_counting_wrapper_counts_every_transfer : counting_wrapper_counts_every_transfer.
+Check C14_as_slice_shows_parts : as_slice_shows_parts.
 Print Assumptions C14_exposed_pairs_in_bounds.
 Print Assumptions C14_reported_lengths_agree.
 Print Assumptions C14_set_init_appends_in_order.
 Print Assumptions C14_limit_never_exceeded.
 Print Assumptions C14_counting_wrapper_counts_every_transfer.
+Print Assumptions C14_as_slice_shows_parts.
+Print Assumptions C14_as_slice_by_limit_refuted.
 Print Assumptions C14_h6_truncating_cast_refuted.
